@@ -216,8 +216,9 @@ def gen_token(v):
             return "z:" + t
         return f"z:{t}.{v.attr_spec.name}"
     if callable(v) and hasattr(v, "__globals__") and hasattr(v, "__code__"):
-        if v.__code__.co_filename == "<string>" and "implementation" in v.__globals__ and "DEFAULTS" in v.__globals__:
-            impl = v.__globals__["implementation"]
+        gkey = next((k for k in ("_spec_classes_implementation", "implementation") if k in v.__globals__), None)
+        if v.__code__.co_filename == "<string>" and gkey and "DEFAULTS" in v.__globals__:
+            impl = v.__globals__[gkey]
             if isinstance(impl, functools.partial):
                 fname = impl.func.__name__
                 if fname == "init":
@@ -811,17 +812,11 @@ def inherited_cases(rng, tier):
     for a, b, why in pairs:
         if why == "attr":
             unstable.append((blank(annots=[[a, "L"]]), blank(annots=[[b, "S"]])))
-            unstable.append((blank(annots=[[a, "D"], ["x", "S"]]), blank(annots=[[b, "L"]])))
+            unstable.append((blank(annots=[[a, "D"], ["filler", "S"]]), blank(annots=[[b, "L"]])))
     if tier == "quick":
         unstable = unstable[:6]
     for p, c in unstable:
         yield p, c, "inherit:singular"
-
-
-def known_registered():
-    import common
-
-    return any(k.get("matcher") == "inherited_singular" and k.get("status") == "open" for k in common.load_known(PID))
 
 
 def gen_cases(tier, rng):
@@ -846,8 +841,6 @@ def gen_cases(tier, rng):
             d = blank(annots=body, attrs=attrs, typed=typed, skip=skip, init=sw[0], repr=sw[1], eq=sw[2])
             yield {"cls": d, "touch": [], "origin": "options"}
     for p, c, why in inherited_cases(rng, tier):
-        if why == "inherit:singular" and not known_registered():
-            continue  # open finding KF-C16-inherited-singular not registered: probed in extra() instead
         yield {"parent": p, "cls": c, "touch": [], "origin": why}
     nrand = 120 if tier == "quick" else 4000
     for _ in range(nrand):
@@ -857,22 +850,6 @@ def gen_cases(tier, rng):
             vs = list(itertools.islice(occupied_variants(d, rng, "quick"), 3))
             for v, g in vs[:2]:
                 yield {"cls": v, "touch": [g], "origin": "occupied"}
-
-
-def extra(tier, rng):
-    """Probe of the open finding (inherited singular collision) when it is not registered in known_findings.json."""
-    info = {"inherited_singular_registered": known_registered()}
-    rep = 0
-    n = 0
-    for p, c, why in inherited_cases(rng, tier):
-        if why != "inherit:singular":
-            continue
-        n += 1
-        if oracle({"parent": p, "cls": c}):
-            rep += 1
-    info["inherited_singular_probes"] = n
-    info["inherited_singular_reproduces"] = rep
-    return {"evaluations": n, "nontrivial": [], "violations": [], "disagreements": [], "info": info}
 
 
 def shrink(case, at=None):
